@@ -35,15 +35,15 @@ const stepTimeout = 4 * time.Second
 // ---------- one backend connection as seen from the backend ----------
 
 type bconn struct {
-	srv     *server
-	ep      *e2e.Endpoint
-	beh     string
-	mu      sync.Mutex
-	joined  bool // JoinGame was sent on this connection
-	closed  bool // the proxy closed it (or we did)
-	answered bool        // the backend has sent its decisive packet (JoinGame / Disconnect / …) or closed
-	stalled chan struct{} // closed when the script reached its stall point
-	release chan struct{} // closed to let a stalled script go on
+	srv      *server
+	ep       *e2e.Endpoint
+	beh      string
+	mu       sync.Mutex
+	joined   bool          // JoinGame was sent on this connection
+	closed   bool          // the proxy closed it (or we did)
+	answered bool          // the backend has sent its decisive packet (JoinGame / Disconnect / …) or closed
+	stalled  chan struct{} // closed when the script reached its stall point
+	release  chan struct{} // closed to let a stalled script go on
 }
 
 // closed as soon as either side closed the in-memory pipe (no goroutine has to notice first)
@@ -80,9 +80,10 @@ func kickPacket(p proto.Protocol, st states.State) *packet.Disconnect {
 }
 
 // run is the backend side of one connection; beh is one of
-//   a   accept                      kl  Disconnect in login          el  close in login
-//   kc  Disconnect in config (modern; legacy: same as kt)            kt  Disconnect after login success, before JoinGame
-//   et  close before JoinGame       enc EncryptionRequest in login   s:<b> stall in login until released, then <b>
+//
+//	a   accept                      kl  Disconnect in login          el  close in login
+//	kc  Disconnect in config (modern; legacy: same as kt)            kt  Disconnect after login success, before JoinGame
+//	et  close before JoinGame       enc EncryptionRequest in login   s:<b> stall in login until released, then <b>
 func (c *bconn) run(p proto.Protocol) {
 	ep := c.ep
 	defer c.drain()
@@ -237,10 +238,10 @@ type world struct {
 	// the backend-side view of "attempts in flight at the same time"
 	unanswered    int
 	maxUnanswered int
-	allConns     []*bconn
-	newConn      chan *bconn
-	nameHook     func(*server)
-	preConnect   func(*proxy.ServerPreConnectEvent)
+	allConns      []*bconn
+	newConn       chan *bconn
+	nameHook      func(*server)
+	preConnect    func(*proxy.ServerPreConnectEvent)
 }
 
 func (w *world) noteConn(c *bconn) {
